@@ -987,6 +987,11 @@ func runC11x(c *Ctx) error {
 	for _, l := range []string{
 		"c=H:ok,W:ok/n=9002|g=1,486604799,1,1,1231006505,2083236893;f=;X;L2,1,6,545259519",
 		"c=W:ok,H:ok,R:ok/n=9003|g=1,486604799,1,1,1231006505,2083236893;f=;L2,1,4,545259519;X;L6,5,4,545259519;20,3,541065215,1,120,1600000100,9",
+		// sync bursts: 40 headers back to back, every delivery goroutine reads and writes the webhooks table while the
+		// next headers are being inserted (storage errors on those reads / writes must not cost an event)
+		"c=H:ok,W:ok,R:ok/n=9004|g=1,486604799,1,1,1231006505,2083236893;f=;L2,1,40,545259519",
+		"c=H:ok,R:ok/n=9005|g=1,486604799,1,1,1231006505,2083236893;f=;L2,1,40,545259519",
+		"c=W:ok,H:ok/n=9006|g=1,486604799,1,1,1231006505,2083236893;f=;L2,1,25,545259519;X;L27,26,25,545259519",
 	} {
 		k, err := c11Parse(l)
 		if err != nil {
